@@ -168,4 +168,16 @@ def L(id_, file, func, keyword, nth, name, count=None):
 
 
 # group name -> list of rules.  A property's obligations name the groups their TU depends on.
-RULES = {}
+RULES = {
+ 'defer': [
+  # CBMC compares `p == (void *)(~(1 << 0))` in 32 bits; same value under GCC with the widening made explicit
+  {'id': 'dq_fct_mark_width', 'file': 'src/urcu-defer-impl.h', 'kind': 'regex',
+   'pattern': r'^#define DQ_FCT_MARK\s+\(\(void \*\)\(~DQ_FCT_BIT\)\)\s*$',
+   'repl': '#define DQ_FCT_MARK\t\t((void *)(~(unsigned long)DQ_FCT_BIT))', 'count': 1},
+  # indirect call of an arbitrary bit pattern -> recorder (default definition: the call itself)
+  {'id': 'decode_call', 'file': 'src/urcu-defer-impl.h', 'kind': 'regex',
+   'pattern': r'^(\s*)fct\(p\);\s*$', 'repl': r'\1URCU_VERIF_CALL(fct, p);', 'count': 1,
+   'default_defs': {'URCU_VERIF_CALL': '#define URCU_VERIF_CALL(f, a) f(a)'}},
+  L('decode_loop', 'src/urcu-defer-impl.h', 'rcu_defer_barrier_queue', 'for', 1, 'defer_decode', count=1),
+ ],
+}
